@@ -15,10 +15,11 @@ int64_t CDNS::Timestamp::get_time_offset(const Timestamp& reference, uint64_t ti
     if (ticks_per_second == 0)
         throw std::runtime_error("Ticks per second resolution is zero!");
 
-    int64_t ticks = (m_secs * ticks_per_second) + m_ticks;
-    int64_t ref_ticks = (reference.m_secs * ticks_per_second) + reference.m_ticks;
+    uint64_t ticks = (m_secs * ticks_per_second) + m_ticks;
+    uint64_t ref_ticks = (reference.m_secs * ticks_per_second) + reference.m_ticks;
 
-    return ticks - ref_ticks;
+    // Subtract the unsigned tick counts (wrap-around is defined) and convert the difference afterwards
+    return static_cast<int64_t>(ticks - ref_ticks);
 }
 
 void CDNS::Timestamp::add_time_offset(int64_t offset, uint64_t ticks_per_second)
